@@ -395,3 +395,6 @@ def run(ctx):
     from checks import codec_model
     codec_model.report(ctx, "R15.j", "R15.k")
     codec_model.namespace_entry_points(ctx, "R15.n")
+    ctx.rule("R15.m", "entry-point model, decoding: Parameters.deserialize_parameters interpreted twice in a row with the same text on one class: the serializer is consulted both times and no "
+                      "mutable value of the second result is an object of the first (no remembered payload hands out shared containers)", floor=1)
+    codec_model.deserialize_entry_point(ctx, "R15.m")
